@@ -61,5 +61,24 @@ for fn in (np.min, np.max, np.amin, np.amax):
                 bad += 1
                 print("MISMATCH: exception class", fn.__name__, e.cls)
     # other argument forms fall through to the stock models (axis=..., 2-D): not modelled here
-print("cases:", 4 * (len(CASES) + 1), "mismatches:", bad)
+# ---------------------------------------------------------------- np.array_equal of two 1-D arrays of symbolic length (pyvc/narr.py)
+from pyvc import narr  # noqa: E402
+
+PAIRS = [([1, 2, 3], [1, 2, 3]), ([1, 2, 3], [1, 2, 4]), ([1, 2], [1, 2, 3]), ([], []), ([0], [0]), ([0], [1]), ([1.5, 2.0], [1.5, 2.0]), ([3, 2, 1], [1, 2, 3])]
+for xs, ys in PAIRS:
+    E = Verifier(Registry(), "C03")
+    kind = "real" if any(isinstance(v, float) for v in xs + ys) else "int"
+    mk = (lambda v: z3.RealVal(repr(v))) if kind == "real" else z3.IntVal
+    a, b = SArr.fresh(kind, len(xs), name="a"), SArr.fresh(kind, len(ys), name="b")
+    facts = [z3.Select(a.arr, i) == mk(v) for i, v in enumerate(xs)] + [z3.Select(b.arr, i) == mk(v) for i, v in enumerate(ys)]
+    r = narr.np_array_equal(E, [a, b], {})
+    rz = z3.BoolVal(r) if isinstance(r, bool) else r.z
+    want = bool(np.array_equal(np.array(xs), np.array(ys)))
+    s = z3.Solver()
+    s.add(*facts)
+    s.add(rz != z3.BoolVal(want))
+    if s.check() != z3.unsat:
+        bad += 1
+        print("MISMATCH np.array_equal", xs, ys, "numpy:", want)
+print("cases:", 4 * (len(CASES) + 1) + len(PAIRS), "mismatches:", bad)
 sys.exit(1 if bad else 0)
